@@ -73,6 +73,8 @@ RStep(st, tk, sst) ==
               (LET st1 == [st EXCEPT !.fpos = <<tk.r, tk.c>>]
                   res == tk.res
               IN CASE res.t = "str"  -> st1
+                   \* cached value of type 3: the formula evaluates to the empty string (no STRING record follows)
+                   [] res.t = "empty" -> Push(st1, <<tk.r, tk.c>>, [t |-> "s", v |-> ""])
                    [] res.t = "num"  -> Push(st1, <<tk.r, tk.c>>, FloatOf(res.n))
                    [] res.t = "bool" -> Push(st1, <<tk.r, tk.c>>, [t |-> "b", b |-> (res.v # 0)])
                    [] res.t = "err"  -> IF res.v \in ErrCodes
@@ -145,6 +147,7 @@ IStep(st, tk, sst) ==
             (CASE tk.res.t = "num"  -> Put(P, Tag("f", ClsVal(tk.res.n)))
                [] tk.res.t = "bool" -> Put(P, [t |-> "b", b |-> (tk.res.v # 0)])
                [] tk.res.t = "err"  -> Put(P, [t |-> "e", e |-> ErrName(tk.res.v)])
+               [] tk.res.t = "empty" -> Put(P, [t |-> "s", v |-> ""])
                [] OTHER -> [st EXCEPT !.pend = P])
        [] tk.k = "string" -> [doc |-> Append(st.doc, [p |-> st.pend, v |-> [t |-> "s", v |-> tk.s]]), pend |-> <<>>]
        [] OTHER -> st
